@@ -1,5 +1,7 @@
 import Dcg.Model.Bounds
 import Dcg.Gen.Formats
+import Dcg.Model.YamlLoader
+import Dcg.Gen.YamlLoader
 /-
 C15 — equivalent inputs produce the same models.
 What can be stated about the generator's own algorithms is here: the rewriting of draft-4 boolean
@@ -8,7 +10,7 @@ str-vs-Path are I/O (PyYAML, the file system): no theorem, differential runs onl
 (vlib/props/c15.py) — the claim for those parts is PARTIAL.
 -/
 namespace Dcg.Props.C15
-open Dcg.Model.Bounds Dcg.Gen.Formats
+open Dcg.Model.Bounds Dcg.Gen.Formats Dcg.Model.YamlLoader Dcg.Gen.YamlLoader
 
 /-! ### exclusive bounds -/
 
@@ -254,6 +256,87 @@ theorem walk_refuses_non_mapping (entries : List (String × Body)) (n : String) 
   unfold walkNamed
   have : entries.any (fun e => e.2 == .notAMapping) = true := List.any_eq_true.mpr ⟨_, h, by simp⟩
   simp [this]
+
+/-! ### the loader that reads both JSON and YAML text -/
+
+/-- the REVIEWED differences between the loader `load_yaml` uses and the stock `yaml.SafeLoader`: one constructor
+registration — a node tagged `timestamp` (a plain `2001-01-01`, `2001-12-14t21:59:43.10-05:00`, `!!timestamp …`) is
+constructed by the string constructor. Nothing else: no other constructor (in particular none for `map`, `seq`, `str`,
+`int`, `float`, `bool`, `null`, `merge`), no multi-constructor, no implicit or path resolver, no overridden method of the
+constructor / resolver layers (`construct_mapping`, `flatten_mapping`, …), no foreign class in the MRO. -/
+def reviewedOverrides : List (String × String × String) :=
+  [("constructor", "tag:yaml.org,2002:timestamp", "SafeConstructor.construct_yaml_str")]
+
+/-- The override set of the loader, regenerated from the running package on every run (vlib/translate/yamlloader.py:
+the four tables of the class `load_yaml` hands to `yaml.load`, every method of the constructor and resolver layers and
+the MRO, each compared with `yaml.SafeLoader`), is EXACTLY the reviewed one; the module-level statements of util.py that
+touch the loader classes are the four reviewed ones; `load_yaml` hands the stream to `yaml.load` with that loader and
+`load_yaml_from_path` is `load_yaml` of the opened file. A new resolver / constructor registration, an overridden method
+or another loader breaks this obligation (kernel-decided on the regenerated tables); the failing-input search then looks
+for a YAML text of the surface family that the pair oracle `json_vs_yaml_surface` rejects. -/
+theorem yaml_loader_overrides_reviewed :
+    loaderOverrides = reviewedOverrides ∧
+    loaderSetup =
+      ["SafeLoaderTemp = copy.deepcopy(SafeLoader)",
+       "SafeLoaderTemp.yaml_constructors = copy.deepcopy(SafeLoader.yaml_constructors)",
+       "SafeLoaderTemp.add_constructor('tag:yaml.org,2002:timestamp', SafeLoaderTemp.yaml_constructors['tag:yaml.org,2002:str'])",
+       "SafeLoader = SafeLoaderTemp"] ∧
+    loadYamlBody =
+      ["load_yaml: return yaml.load(stream, Loader=SafeLoader)",
+       "load_yaml_from_path: with path.open(encoding=encoding) as f: return load_yaml(f)"] := by
+  decide
+
+/-- For ANY stock table and ANY override rows: a tag for which no constructor is registered among the overrides is
+constructed by the stock constructor (rows of other kinds — resolvers, methods — are not looked at by the lookup). -/
+theorem ctorOf_without_override (stock : List (String × String)) (fb : String)
+    (ovr : List (String × String × String)) (tag : String)
+    (h : ∀ r ∈ ovr, r.1 = "constructor" → r.2.1 ≠ tag) :
+    ctorOf stock fb ovr tag = ctorOf stock fb [] tag := by
+  have hl : (ctorOverrides ovr).lookup tag = none := by
+    induction ovr with
+    | nil => rfl
+    | cons r rs ih =>
+      have ih' := ih (fun r' hr' => h r' (List.mem_cons_of_mem _ hr'))
+      obtain ⟨k, t, c⟩ := r
+      by_cases hk : k = "constructor"
+      · have hne : t ≠ tag := h (k, t, c) List.mem_cons_self hk
+        have hbeq : (tag == t) = false := by simpa using fun e => hne e.symm
+        simp only [ctorOverrides, hk, List.filter_cons, beq_self_eq_true, if_true, List.map_cons, List.lookup, hbeq] at ih' ⊢
+        exact ih'
+      · have hkb : (k == "constructor") = false := by simpa using hk
+        simp only [ctorOverrides, List.filter_cons, hkb] at ih' ⊢
+        exact ih'
+  unfold ctorOf
+  rw [hl]
+  rfl
+
+/-- WHERE THE LOADER DIFFERS from the stock safe loader, for EVERY tag: only at `timestamp`, which is constructed like
+`str` (so a plain timestamp-looking scalar stays the string JSON text gives); every other tag — `map` and the merge-key
+handling behind it, `seq`, `str`, `int`, `float`, `bool`, `null`, `binary`, `set`, `omap`, `pairs`, and every unknown tag
+(refused) — has the stock constructor. The last conjunct is the non-vacuity of the override: stock `timestamp` ≠ `str`. -/
+theorem yaml_loader_differs_only_at_timestamp (tag : String) :
+    (tag ≠ "tag:yaml.org,2002:timestamp" →
+      ctorOf stockConstructors stockFallback loaderOverrides tag = ctorOf stockConstructors stockFallback [] tag) ∧
+    ctorOf stockConstructors stockFallback loaderOverrides "tag:yaml.org,2002:timestamp" =
+      ctorOf stockConstructors stockFallback [] "tag:yaml.org,2002:str" ∧
+    ctorOf stockConstructors stockFallback [] "tag:yaml.org,2002:timestamp" ≠
+      ctorOf stockConstructors stockFallback [] "tag:yaml.org,2002:str" := by
+  refine ⟨fun h => ?_, by decide, by decide⟩
+  apply ctorOf_without_override
+  rw [yaml_loader_overrides_reviewed.1]
+  intro r hr _
+  simp only [reviewedOverrides, List.mem_singleton] at hr
+  subst hr
+  exact fun e => h e.symm
+
+/-- non-vacuity: the mapping tag (behind which merge keys are flattened) and an unknown tag -/
+example : ctorOf stockConstructors stockFallback loaderOverrides "tag:yaml.org,2002:map" = "SafeConstructor.construct_yaml_map" ∧
+    ctorOf stockConstructors stockFallback loaderOverrides "!local" = "SafeConstructor.construct_undefined" := by decide
+
+/-- an override table with a second registration (what a regression of the family looks like) is not the reviewed one
+and changes the constructor of that tag -/
+example : ctorOf stockConstructors stockFallback
+    (("constructor", "tag:yaml.org,2002:map", "util.f") :: reviewedOverrides) "tag:yaml.org,2002:map" = "util.f" := by decide
 
 /-! ### formats -/
 
